@@ -125,8 +125,17 @@ peg::parser! {
             }
 
         rule single_char_bracket_member() -> (String, char) =
-            // Preserve escaped characters as-is.
-            ['\\'] [c] { (std::format!("\\{c}"), c) } /
+            // Preserve escaped punctuation as-is. For any other character the backslash
+            // only quotes it; passing it on would make the regex crate read `\a`, `\d`,
+            // `\b`, ... as its own escapes (or reject the expression). `\<` and `\>` are
+            // word-boundary assertions there, so they lose the backslash as well.
+            ['\\'] [c] {
+                if c.is_ascii_punctuation() && !matches!(c, '<' | '>') {
+                    (std::format!("\\{c}"), c)
+                } else {
+                    (c.to_string(), c)
+                }
+            } /
             // Escape opening bracket.
             ['['] { (String::from(r"\["), '[') } /
             // Any other character except closing bracket gets added as-is.
